@@ -1,4 +1,5 @@
 import SaVerif.Model.PoolFault
+import SaVerif.Model.RecProto
 import SaVerif.Drv.Parse
 namespace SaVerif.Drv.PoolFault
 open SaVerif.Drv SaVerif.PoolFault
@@ -39,8 +40,79 @@ def showIdle (st : St) : String :=
 def openConns (st : St) : List Nat :=
   (List.range st.conns.length).filter (fun i => st.conns.getD i false)
 
-/-- `run <size> <maxOv> <lifo> <recycle> <prePing> <reset> <hasEvent> <plan> <ops>` -/
+/-! ### `proto`: replay of the shared-cell writes of a concurrent run against `RecProto.step`
+
+Labels `t:kind[:rid]` in the order in which the real run performed them (t = thread):
+`cr` entry created, `pop` entry taken from the queue, `fs` fairy_ref set, `fc` fairy_ref
+cleared, `cp` _do_return_conn entered, `put` entry appended to the queue, `cl` entry closed
+(queue full).  The driver numbers the checkout attempts (one per cr/pop) and remembers
+which attempt of a thread is responsible for an entry -- that is the refinement mapping;
+everything else is `RecProto.step`. -/
+structure PSt where
+  st : SaVerif.RecProto.St
+  next : Nat
+  owner : List ((Nat × Nat) × Nat)
+  lastCp : List (Nat × Nat)
+  nrec : Nat
+
+def pOwner (p : PSt) (t r : Nat) : Option Nat :=
+  (p.owner.find? (fun e => e.1 == (t, r))).map (·.2)
+
+def pStep (p : PSt) (tok : String) : Option PSt :=
+  open SaVerif.RecProto in
+  let go (p : PSt) (l : Label) : Option PSt := (step p.st l).map fun s => { p with st := s }
+  match tok.splitOn ":" with
+  | [t, kind, r] =>
+    match t.toNat?, r.toNat? with
+    | some t, some r =>
+      let p := { p with nrec := max p.nrec (r + 1) }
+      if kind == "cr" ∨ kind == "pop" then
+        let a := p.next
+        let p := { p with next := a + 1, owner := ((t, r), a) :: p.owner.filter (fun e => e.1 != (t, r)) }
+        go p (if kind == "cr" then .create a r else .pop a r)
+      else
+        match pOwner p t r with
+        | none => none
+        | some a =>
+          if kind == "fs" then go p (.setref a r)
+          else if kind == "fc" then
+            (if p.st.pc a = .got r then go p (.clearf a r) else go p (.clear a r))
+          else if kind == "put" then go p (.put a r)
+          else if kind == "cp" then some { p with lastCp := (t, r) :: p.lastCp.filter (fun e => e.1 != t) }
+          else none
+    | _, _ => none
+  | [t, "cl"] =>
+    match t.toNat? with
+    | some t =>
+      match (p.lastCp.find? (fun e => e.1 == t)).map (·.2) with
+      | some r => match pOwner p t r with
+        | some a => go p (.drop a r)
+        | none => none
+      | none => none
+    | none => none
+  | _ => none
+
+def pRun (p : PSt) (i : Nat) : List String → Except String PSt
+  | [] => .ok p
+  | tok :: rest => match pStep p tok with
+    | some p' => pRun p' (i + 1) rest
+    | none => .error s!"reject@{i}:{tok}"
+
+def pShow (p : PSt) : String :=
+  let rs := List.range p.nrec
+  let owned (r : Nat) : Bool := (List.range p.next).any fun a =>
+    p.st.pc a == .got r || p.st.pc a == .holding r || p.st.pc a == .cleared r
+  s!"ok idle={showNatList (rs.filter fun r => p.st.idle r)} owned={showNatList (rs.filter owned)}" ++
+    s!" dead={showNatList (rs.filter fun r => p.st.dead r)}"
+
+/-- `run <size> <maxOv> <lifo> <recycle> <prePing> <reset> <hasEvent> <plan> <ops>` /
+    `proto <labels>` -/
 def handle : List String → String
+  | ["proto", labels] =>
+    let toks := if labels == "-" then [] else labels.splitOn ","
+    match pRun { st := SaVerif.RecProto.init, next := 0, owner := [], lastCp := [], nrec := 0 } 0 toks with
+    | .ok p => pShow p
+    | .error e => e
   | ["run", size, maxOv, lifo, recycle, prePing, reset, hasEvent, plan, ops] =>
     match size.toNat?, maxOv.toInt?, parseBool? lifo, recycle.toInt?, parseBool? prePing,
           reset.toNat?, parseBool? hasEvent, parseNatList? plan, parseOps? ops with
